@@ -302,9 +302,13 @@ class ConflictResolver:
             # find the next 'word' to add to the prefix.
             available_words = list(filter(bool, explicit_prefix.split(".")))
             used_words = list(filter(bool, current_prefix.split(".")))
-            assert len(available_words) > len(
-                used_words
-            ), "There should at least one word we haven't used yet!"
+            if len(available_words) <= len(used_words):
+                # Can happen when a prefix was set by the user: there isn't any word left to add.
+                raise ConflictResolutionError(
+                    f"Cannot fix the conflict for the Options string {conflict.option_string}: "
+                    f"the field {field_wrapper} has the prefix {current_prefix!r}, and there is no "
+                    f"word left in its destination to add as a discriminating prefix."
+                )
             logger.debug(f"Available words: {available_words}, used_words: {used_words}")
 
             n_available_words = len(available_words)
